@@ -579,7 +579,11 @@ def _htmldiff(old, new, comparator, include='all'):
     def render_diff(diff_type):
         diff = assemble_diff(old_tokens, new_tokens, opcodes, diff_type)
         # return fixup_ins_del_tags(''.join(diff).strip())
-        result = ''.join(diff).strip().replace('</li> ', '</li>')
+        # Drop the space after `</li>` end tags. (Chunk by chunk, not on the
+        # joined string: the text of embedded scripts, styles, etc. is a chunk
+        # of its own and must come out exactly as it went in.)
+        result = ''.join('</li>' if chunk == '</li> ' else chunk
+                         for chunk in diff).strip()
         return result
 
     if include == 'all' or include == 'combined':
